@@ -493,6 +493,56 @@ def c18(rep, rnd, thorough):
         shutil.rmtree(d, ignore_errors=True)
 
 
+def live_relay(rep):
+    """A relay as deployed: the real start_server with a proxy location in front of another real server, live sockets, a
+    body larger than the kernel's socket buffers and a downstream reader that idles for some seconds after the first
+    bytes: every byte must still arrive, unchanged."""
+    import tempfile
+    import threading
+    from checks import live as livemod
+    from checks.c20 import RealServer
+    from vf.memtls import CertFiles
+    from nauyaca.server.location import HandlerType, LocationConfig
+    root = tempfile.mkdtemp(prefix="vf-c18-live-")
+    cert = CertFiles("ec", "localhost")
+    line = "relayed line 0123456789 abcdefghijklmnopqrstuvwxyz \u00e9\u65e5\n"
+    content = line * (9 * 1024 * 1024 // len(line.encode("utf-8")))
+    with open(os.path.join(root, "big.gmi"), "w", encoding="utf-8") as f:
+        f.write(content)
+    up = front = None
+    try:
+        up = RealServer("stdlib", "supplied", root, cert)
+        loc = LocationConfig(prefix="/", handler_type=HandlerType.PROXY, upstream="gemini://127.0.0.1:%d" % up.port, timeout=60.0)
+        results = {}
+        fronts = {}
+        for bk in ("stdlib", "pyopenssl"):
+            fronts[bk] = RealServer(bk, "supplied", root, cert, locations=[loc])
+        livemod.IDLE_S[0] = 14.0 if rep.tier == "thorough" else 7.0
+
+        def run(bk):
+            results[bk] = livemod.fetch(fronts[bk].port, b"gemini://localhost/big.gmi\r\n", "idle5", None, timeout=120)
+        ths = [threading.Thread(target=run, args=(bk,)) for bk in fronts]
+        for t in ths:
+            t.start()
+        for t in ths:
+            t.join(180)
+        want = b"20 text/gemini\r\n" + content.encode("utf-8")
+        for bk, (data, end) in results.items():
+            if data != want or end != "eof":
+                first = next((i for i, (x, y) in enumerate(zip(data, want)) if x != y), min(len(data), len(want)))
+                rep.violation({"formula": "Verbatim", "live": True, "backend": bk},
+                              "relay through the server started by start_server (%s backend), 9 MiB body, downstream reader idle for %.0f s: received %d of %d bytes (end=%s), first difference at %d" % (
+                                  bk, livemod.IDLE_S[0], len(data), len(want), end, first), None)
+        rep.add("live_relays", len(results))
+        for f_ in fronts.values():
+            f_.stop()
+    finally:
+        if up is not None:
+            up.stop()
+        cert.remove()
+        shutil.rmtree(root, ignore_errors=True)
+
+
 def main(pid, rep=None, finish=True):
     rep = rep or evidence.Report(pid, "model_checking")
     rnd = random.Random(rep.seed * 17 + 18)
@@ -501,6 +551,7 @@ def main(pid, rep=None, finish=True):
             c17(rep, rnd, rep.tier == "thorough")
         else:
             c18(rep, rnd, rep.tier == "thorough")
+            live_relay(rep)
         rep.assume("upstream peers are scripted transports (TLS failures are injected as the exceptions create_connection raises); "
                    "the downstream side is the real server protocol on a fake transport, in virtual time")
         rep.set("exhaustive", False)
